@@ -1,4 +1,5 @@
 import AmVerif.Proofs.Bloom
+import AmVerif.Proofs.IdsMsg
 /-
   C23 — The sync Bloom filter has no false negatives and never crashes.
   Property theorems only; helper lemmas are in `AmVerif.Proofs.Bloom`.
@@ -35,6 +36,36 @@ theorem C23_no_false_negative (hs : List Hash) (f : Filter) (h : Hash)
   simp only [if_neg hne, hps]
   congr 1
   exact allSet_of_bitSet _ _ (fun q hq => inv'.members h hm ps hps q hq)
+
+/-- "…including after encoding and decoding": the bytes of a filter built from fewer than 2^32 hashes
+    parse back to the same filter, hence every member is still reported (`C23_no_false_negative`). -/
+theorem C23_roundtrip (hs : List Hash) (f : Filter) (hlen : hs.length < 2 ^ 32)
+    (hf : fromHashes hs = .ok f) : parse (toBytes f) = .ok (f, []) := by
+  apply AmVerif.IdsMsg.bloom_parse_toBytes
+  cases hs with
+  | nil =>
+    have : f = Bloom.default := by
+      have h : fromHashes ([] : List Hash) = .ok Bloom.default := rfl
+      rw [h] at hf; cases hf; rfl
+    subst this
+    exact ⟨fun _ => rfl, fun h => absurd rfl h⟩
+  | cons h hs =>
+    obtain ⟨f', hf', inv⟩ := fromHashes_inv (h :: hs) (by simp)
+    rw [hf] at hf'; cases hf'
+    have hcap := cap_pos (h :: hs).length (by simp)
+    refine ⟨fun h0 => ?_, fun _ => ?_⟩
+    · rw [inv.entries] at h0; simp at h0
+    · have hB : f.bitsPerEntry = Consts.BITS_PER_ENTRY := inv.bpe
+      refine ⟨by rw [inv.entries]; exact hlen, by rw [hB]; decide, by rw [inv.probes]; decide, ?_, ?_⟩
+      · rw [inv.len, inv.entries, hB]
+      · right
+        rw [inv.probes, inv.len]
+        have : 10 * (h :: hs).length + 7 ≥ 17 := by simp; omega
+        show Consts.NUM_PROBES ≤ 8 * bitsCapacity (h :: hs).length Consts.BITS_PER_ENTRY
+        unfold bitsCapacity
+        have h10 : Consts.BITS_PER_ENTRY = 10 := rfl
+        have h7 : Consts.NUM_PROBES = 7 := rfl
+        rw [h10, h7]; omega
 
 /-- Second sentence: querying ANY filter value — in particular one decoded from arbitrary bytes —
     returns a boolean; it never panics. -/
